@@ -349,3 +349,120 @@ pub fn run_refusal<const N: usize>(tkind: crate::drivers::TKind, max: u32) -> Ve
     crate::mmio::set_handler(None);
     v
 }
+
+/// The transport says the queue is in use (a queue created earlier through the same transport is
+/// still live): a second creation for the same index must be refused with AlreadyUsed, allocate
+/// nothing and leave the live queue's registration as it is.
+pub fn run_in_use<const N: usize>(tkind: crate::drivers::TKind, pre: usize) -> Vec<(String, String)> {
+    struct VU<const N: usize>;
+    impl<const N: usize> crate::drivers::TransportVisitor for VU<N> {
+        type Out = Vec<(String, String)>;
+        fn visit<T: virtio_drivers::transport::Transport + 'static>(self, mut t: T, w: &crate::drivers::DWorld) -> Self::Out {
+            let mut v = vec![];
+            let _ = t.begin_init(crate::c10::LabFeatures::all());
+            let first = match crate::util::catch(|| VirtQueue::<LabHal, N>::new(&mut t, 0, false, false, false)) {
+                Ok(Ok(q)) => q,
+                other => {
+                    v.push(("spurious-refusal".into(), format!("first creation failed: {:?}", other.map(|r| r.map(|_| ()))))); 
+                    return v;
+                }
+            };
+            let before = w.dev.borrow().queue_addrs(0);
+            let allocs_before = hal::with(|h| h.dma_calls);
+            let second = crate::util::catch(|| VirtQueue::<LabHal, N>::new(&mut t, 0, false, false, false));
+            let allocs = hal::with(|h| h.dma_calls) - allocs_before;
+            match second {
+                Err(p) => v.push(("new-panicked".into(), p)),
+                Ok(Ok(q2)) => {
+                    v.push(("not-refused".into(), format!("queue 0 was created a second time on {} while the first one is still registered and live", w.tkind.name())));
+                    std::mem::forget(q2);
+                }
+                Ok(Err(e)) => {
+                    if e != Error::AlreadyUsed {
+                        v.push(("wrong-refusal".into(), format!("second creation refused with {:?}, expected AlreadyUsed", e)));
+                    }
+                    if allocs != 0 {
+                        v.push(("refusal-allocated".into(), format!("the refused second creation made {} dma_alloc calls", allocs)));
+                    }
+                }
+            }
+            let after = w.dev.borrow().queue_addrs(0);
+            if format!("{:?}", after) != format!("{:?}", before) {
+                v.push(("refusal-registered".into(), format!("the device's registration of queue 0 changed from {:?} to {:?} by the second creation", before, after)));
+            }
+            t.queue_unset(0);
+            drop(first);
+            v
+        }
+    }
+    hal::reset();
+    let mut keep = vec![];
+    for _ in 0..pre {
+        keep.push(<LabHal as virtio_drivers::Hal>::dma_alloc(1, virtio_drivers::BufferDirection::Both, false));
+    }
+    let w = crate::drivers::DWorld::new(crate::drivers::Kind::Rng, tkind, crate::drivers::F_VERSION_1, vec![]);
+    let mut v = w.with_transport(VU::<N>);
+    for (k, d) in hal::with(|h| std::mem::take(&mut h.faults)) {
+        v.push((k, d));
+    }
+    for (p, va) in keep {
+        // SAFETY: allocated above with the same arguments.
+        unsafe { <LabHal as virtio_drivers::Hal>::dma_dealloc(p, va, 1, false) };
+    }
+    crate::mmio::set_handler(None);
+    v
+}
+
+/// The platform's DMA memory lies at and above 2^44: the modern registers carry such addresses; a
+/// legacy device (32-bit page frame number of 4 KiB pages) cannot be told about them, so creation
+/// may fail there in whatever way - but a queue that is registered must be registered where it is.
+pub fn run_high_memory<const N: usize>(tkind: crate::drivers::TKind) -> Vec<(String, String)> {
+    struct VH<const N: usize>;
+    impl<const N: usize> crate::drivers::TransportVisitor for VH<N> {
+        type Out = Vec<(String, String)>;
+        fn visit<T: virtio_drivers::transport::Transport + 'static>(self, mut t: T, w: &crate::drivers::DWorld) -> Self::Out {
+            let mut v = vec![];
+            let legacy = w.tkind == crate::drivers::TKind::MmioLegacy;
+            let _ = t.begin_init(crate::c10::LabFeatures::all());
+            let mut created = false;
+            match crate::util::catch(|| VirtQueue::<LabHal, N>::new(&mut t, 0, false, false, false)) {
+                Err(p) => {
+                    if !legacy {
+                        v.push(("new-panicked".into(), p));
+                    }
+                }
+                Ok(Err(e)) => {
+                    if !legacy {
+                        v.push(("spurious-refusal".into(), format!("creation above 2^44 failed with {:?} on {}", e, w.tkind.name())));
+                    }
+                }
+                Ok(Ok(q)) => {
+                    created = true;
+                    match w.dev.borrow().queue_addrs(0) {
+                        None => v.push(("not-registered".into(), "queue 0 is not enabled in the device".into())),
+                        Some(a) => check_registered(N, legacy, false, a.desc, a.driver, a.device, &mut v),
+                    }
+                    t.queue_unset(0);
+                    drop(q);
+                }
+            }
+            // A creation that failed must not leave something registered that is not backed by
+            // live memory.
+            if let Some(a) = w.dev.borrow().queue_addrs(0).filter(|_| !created) {
+                if hal::with(|h| h.dma_containing(a.desc, 16).is_none()) {
+                    v.push(("outside-dma".into(), format!("queue 0 is registered at {:#x}, which is not DMA memory of the platform", a.desc)));
+                }
+            }
+            v
+        }
+    }
+    hal::reset();
+    hal::with(|h| h.skew_dma(1u64 << 32));
+    let w = crate::drivers::DWorld::new(crate::drivers::Kind::Rng, tkind, crate::drivers::F_VERSION_1, vec![]);
+    let mut v = w.with_transport(VH::<N>);
+    for (k, d) in hal::with(|h| std::mem::take(&mut h.faults)) {
+        v.push((k, d));
+    }
+    crate::mmio::set_handler(None);
+    v
+}
